@@ -548,6 +548,16 @@ func validateNatively(r *HarnessResult, n *Native, tier, replayDir string, probl
 				bad = "native run fails " + l
 			}
 		}
+		exits := false
+		for _, ev := range w.p.Events {
+			exits = exits || ev == "process-exit"
+		}
+		if o.End != "VP-DONE" && exits && bad == "" && strings.HasPrefix(strings.Join(want, "\n"), strings.Join(got, "\n")) {
+			// the path runs through a log.Fatal of a package the harness cannot stub natively: the symbolic side
+			// carries on after the harness caught it, the native process ends there — what it observed before agrees
+			r.NativeOK++
+			continue
+		}
 		if o.End != "VP-DONE" {
 			bad = "native run ended with " + o.End + " where the symbolic path returned normally"
 		}
